@@ -142,7 +142,7 @@ class Flaky(Exception):
     pass
 
 
-def shrink_violation(chk, case, viol):
+def shrink_violation(chk, case, viol, first_result=None):
     from sim import shrink
 
     target = vclass(viol)
@@ -159,8 +159,21 @@ def shrink_violation(chk, case, viol):
         small = case
         r = chk.execute(copy.deepcopy(small), keep_log=True)
         vs = [v for v in r.violations if vclass(v) == target]
+    tries = 0
+    while not vs and tries < 5:
+        tries += 1
+        r = chk.execute(copy.deepcopy(small), keep_log=True)
+        vs = [v for v in r.violations if vclass(v) == target]
     if not vs:
-        raise Flaky("violation %s found at index %s did not recur when the same case was executed again: a source of nondeterminism is not owned by the simulator (library or harness)" % (list(target), case.get("_meta", {}).get("index")))
+        if first_result is None:
+            raise Flaky("violation %s found at index %s did not recur when the same case was executed again: a source of nondeterminism is not owned by the simulator (library or harness)" % (list(target), case.get("_meta", {}).get("index")))
+        # The violation was observed once and does not recur: on the unchanged tree this cannot happen (determinism gate),
+        # so the code under test has become nondeterministic (e.g. a result that depends on object addresses).  It is
+        # still a violation of the property in one real execution: report it, marked, with the unshrunk case.
+        v = dict(viol)
+        v["nondeterministic"] = True
+        v["message"] = str(v.get("message")) + " [observed in 1 of %d executions of the same case: the code under test is nondeterministic]" % (tries + 2)
+        return case, v, first_result, ntests
     return small, vs[0], r, ntests
 
 
@@ -252,7 +265,7 @@ def worker_main(args):
         if new is not None and not args.no_stop:
             faulthandler.dump_traceback_later(args.run_timeout * 20, exit=True)
             try:
-                small, v, r, ntests = shrink_violation(chk, case, new)
+                small, v, r, ntests = shrink_violation(chk, case, new, first_result=res)
                 v["property"] = chk.ID
                 path = write_replay(chk, small, v, r, ntests, case)
             except Exception:
@@ -543,6 +556,13 @@ def replay_main(path):
     res = chk.execute(copy.deepcopy(blob["case"]), keep_log=True)
     want = vclass(blob["violation"])
     got = [v for v in res.violations if vclass(v) == want]
+    if not got and blob["violation"].get("nondeterministic"):
+        # recorded as occurring in only some executions of the case: try a few more times
+        for _ in range(30):
+            res = chk.execute(copy.deepcopy(blob["case"]), keep_log=True)
+            got = [v for v in res.violations if vclass(v) == want]
+            if got:
+                break
     print("replay %s: tree=%s (recorded on %s)" % (path, repo_tree_id(), blob.get("tree")))
     if got and res.digest == blob["digest"]:
         print("reproduced exactly: digest=%s" % res.digest)
